@@ -327,17 +327,15 @@ Qed.
 Lemma seq_filter_core c t f c' v : seq_filter c t f = (c', v) -> same_core c c'.
 Proof.
   unfold seq_filter. intros H.
-  destruct (f_seq f <? rseq c); [destruct (post_hvr c && is_client c) |
-    destruct (rseq c <? f_seq f); [destruct (post_hvr c && is_client c) |]];
+  repeat match type of H with (if ?b then _ else _) = _ => destruct b end;
     inversion H; subst; repeat split.
 Qed.
 
 Lemma reassemble_core c f c' ob : reassemble C c f = (c', ob) -> same_core c c'.
 Proof.
   unfold reassemble. intros H.
-  destruct (f_total f =? f_len f); [inversion H; subst; apply same_core_refl |].
-  destruct (negb (inc_seq c =? f_seq f) || (f_off f =? 0)); cbn in H;
-    match type of H with (if ?b then _ else _) = _ => destruct b end; inversion H; subst; repeat split.
+  repeat match type of H with context [if ?b then _ else _] => destruct b end;
+    inversion H; subst; repeat split.
 Qed.
 
 Lemma Inv_accept_msg g c t m c' o e : Inv g c -> accept_msg C c t m = (c', o, e) -> Inv g c'.
